@@ -175,6 +175,41 @@ def run(ctx):
         r = "parse " + instgen.to_bytes(words).hex()
         reqs.append(r)
         metas[r] = (insts, ["unsupported"])
+    # a selector / result type whose tracked type CHANGES between two consumers with no type declaration in between (values defined and
+    # redefined by OpUndef / OpCopyObject / OpFunction after all types were declared; first use before any definition)
+    def _ti(rid, w):
+        return instgen.Inst(g.opv["TypeInt"], "TypeInt", None, rid, [instgen.Op("w", L32, w), instgen.Op("w", L32, 0)])
+
+    def _tf(rid, w):
+        return instgen.Inst(g.opv["TypeFloat"], "TypeFloat", None, rid, [instgen.Op("w", L32, w)])
+
+    def _sw(sel, two, n=2):
+        ops = [instgen.Op("w", g.vix["IdRef"], sel), instgen.Op("w", g.vix["IdRef"], 9)]
+        for _ in range(n):
+            ops += g.literal(two) + [instgen.Op("w", g.vix["IdRef"], 9)]
+        return instgen.Inst(g.opv["Switch"], "Switch", None, None, ops)
+
+    def _un(t, rid):
+        return instgen.Inst(g.opv["Undef"], "Undef", t, rid, [])
+
+    def _co(t, rid):
+        return instgen.Inst(g.opv["CopyObject"], "CopyObject", t, rid, [instgen.Op("w", g.vix["IdRef"], 8)])
+    for a, b in ((64, 32), (32, 64), (64, 16), (8, 64)):
+        for ta, tb in ((_ti, _ti), (_ti, _tf), (_tf, _ti)):
+            if (ta is _tf and a == 8) or (tb is _tf and b == 8):
+                continue
+            for define in (_un, _co):
+                hist = [ta(1, a), tb(2, b),
+                        _sw(3, False), _sw(3, False, 1),            # %3 not defined yet: one word per literal
+                        define(1, 3), _sw(3, a == 64), _sw(3, a == 64, 1),
+                        define(2, 3), _sw(3, b == 64),
+                        define(1, 3), define(2, 4), _sw(3, a == 64), _sw(4, b == 64), _sw(3, a == 64, 3)]
+                words = instgen.header()
+                for i in hist:
+                    words += i.words()
+                r = "parse " + instgen.to_bytes(words).hex()
+                reqs.append(r)
+                metas[r] = (hist, ["switch"] * 8)
     # long histories: hundreds of pairwise distinct numeric types (every width x signedness / float), each under its own id, and
     # hundreds of values chained from them, before the consumers — the width of a literal depends on the declaration of *its* type, not on
     # how many types, ids or values the stream has declared before (counts around 2^8, 2^9, 2^10, 2^12)
